@@ -11,6 +11,11 @@ iterates a Python `set`, reuses a module-level cache, or mutates an object durin
   search         search() appearance, alone (itemset redirect mutated on the survey) or mixed (error text)
   dup_id         settings with both id_string and form_id (input dict mutated: F23)
   dyn_default    the same default strings on date-like and other questions (cached token lists are shared)
+  namespaces     2-4 custom XML namespaces in the settings sheet (and attributes using the prefixes), with or
+                 without an entities sheet: every declaration made in `get_nsmap` must come out in input order
+  dup_names      the same question name in several groups / repeats (legal while unreferenced), plus triggers,
+                 dynamic defaults and a repeat: anything `xml()` records per *name* on the survey object is
+                 ambiguous on the second `xml()`
   entities       entities sheet (get_nsmap appends to survey.namespaces: F36)
   missing_header required header absent (error text built from a set)
   twin           the same rows with every group <-> repeat swapped (same names/xpaths, different tree:
@@ -27,7 +32,8 @@ import gen
 LANG_POOL = ["en", "fr", "de", "sw", "English (en)", "French (fr)", "es", "pt"]
 FEATURES = [
     "sparse_itext", "pulldata", "or_other", "instance_label", "external", "external_nohdr", "search",
-    "search_mixed", "dup_id", "entities", "missing_header", "dyn_default", "plain",
+    "search_mixed", "dup_id", "entities", "missing_header", "dyn_default", "namespaces",
+    "dup_names", "plain",
 ]
 
 
@@ -191,6 +197,52 @@ def add_dyn_default(rng, form, langs):
                                "name": f"dd{i}", **_lab(langs, f"D{i}"), "default": rng.choice(pool)})
 
 
+NS_POOL = [("esri", "http://esri.com/xforms"), ("enk", "http://enketo.org/xforms"), ("naf", "http://nafundi.com/xforms"),
+           ("zz", "urn:example:zz"), ("a1", "http://a.example/1"), ("odk2", "http://example.org/odk2"), ("m", "urn:m")]
+
+
+def add_namespaces(rng, form, with_entities=None):
+    """Several custom namespace declarations (order shuffled, both quote styles) + attributes in them."""
+    picks = rng.sample(NS_POOL, k=rng.randint(2, 4))
+    decls = []
+    for pfx, uri in picks:
+        q = rng.choice(['"', "'", ""])
+        decls.append(f"{pfx}={q}{uri}{q}")
+    st = (form.get("settings") or [{}])[0]
+    st["namespaces"] = rng.choice([" ", "  ", " "]).join(decls)
+    form["settings"] = [st]
+    qs = _questions(form)
+    for r in rng.sample(qs, k=min(len(qs), rng.randint(0, 3))):
+        pfx = rng.choice(picks)[0]
+        r[rng.choice(["instance", "bind"]) + f"::{pfx}:" + rng.choice(["fieldType", "tag", "k"])] = rng.choice(["v", "esriFieldTypeString", "1"])
+    if with_entities if with_entities is not None else rng.random() < 0.5:
+        add_entities(rng, form)
+
+
+def add_dup_names(rng, form, langs):
+    """Sections that each hold a question of the same name; the name is never referenced."""
+    shared = rng.sample(["name", "age", "note_", "dn1", "dn2", "when"], k=rng.randint(1, 3))
+    n_sections = rng.randint(2, 4)
+    for i in range(n_sections):
+        kind = rng.choice(["group", "group", "repeat"])
+        form["survey"].append({"type": f"begin {kind}", "name": f"dsec{i}", **_lab(langs, f"Section {i}")})
+        for nm in shared:
+            if rng.random() < 0.85 or nm == shared[0]:
+                row = {"type": rng.choice(["text", "integer", "date", "note"]), "name": nm, **_lab(langs, nm)}
+                if row["type"] != "note" and rng.random() < 0.3:
+                    row["default"] = rng.choice(["now()", "1 + 1", "today()"])  # dynamic default -> setvalue
+                form["survey"].append(row)
+        form["survey"].append({"type": "text", "name": f"uniq{i}", **_lab(langs, f"U{i}")})
+        form["survey"].append({"type": f"end {kind}"})
+    # triggers on uniquely named, visible questions (setvalue / setgeopoint maps get populated)
+    k = rng.randrange(n_sections)
+    if rng.random() < 0.8:
+        form["survey"].append({"type": rng.choice(["dateTime", "text"]), "name": "trg_ts", **_lab(langs, "T"),
+                               "calculation": "now()", "trigger": f"${{uniq{k}}}"})
+    if rng.random() < 0.4:
+        form["survey"].append({"type": "background-geopoint", "name": "trg_geo", "trigger": f"${{uniq{rng.randrange(n_sections)}}}"})
+
+
 def add_dup_id(rng, form):
     st = (form.get("settings") or [{}])[0]
     st["id_string"] = rng.choice(["one", "my_form"])
@@ -262,6 +314,10 @@ def gen_c14_form(rng: random.Random, feature: str | None = None, big=False, nl: 
             add_dup_id(rng, form)
         elif f == "dyn_default":
             add_dyn_default(rng, form, langs)
+        elif f == "namespaces":
+            add_namespaces(rng, form)
+        elif f == "dup_names":
+            add_dup_names(rng, form, langs)
         elif f == "entities":
             add_entities(rng, form)
         elif f == "missing_header":
